@@ -40,6 +40,8 @@ type Frame struct {
 	activeWitLoop *loopInfo
 	specVars    map[string]SVal // extra identifiers visible to contract expressions of this frame
 	autoInv     []Clause // standing invariants of the parameters, carried through every loop of the top function
+	relational  bool     // C03: calls through function values are deterministic functions of (function, arguments); stated per site
+	loopRun     *loopRun // C03: execute one iteration of a map-range loop from a given state
 	presiteName string // site label of this activation's assumed preconditions (skolem lookup)
 	visited  map[*ssa.Range]*Term // ghost visited set per map range at loop head
 	curKey   map[*ssa.Range]*Term
@@ -52,6 +54,47 @@ type loopInfo struct {
 	ord    int
 	inlSeq int // order of this loop among loops of inlined callees (-1: none)
 	inlSet bool
+}
+
+// loopRun drives the execution of a single iteration of one loop (relational checks of C03).
+type loopRun struct {
+	header *ssa.BasicBlock
+	rg     *ssa.Range
+	next   TupleVal
+	phiIn  map[*ssa.Phi]Val
+	backs  []loopBack
+	exits  []*Term // reach conditions of edges that leave the loop early (break, return)
+	ext    map[*ssa.BasicBlock]bool
+}
+
+// extended: the loop body plus the blocks that can only be reached by leaving the loop from inside
+// its body (early returns): they are executed too, so that an exit can be classified.
+func (lr *loopRun) extended(f *Frame) map[*ssa.BasicBlock]bool {
+	if lr.ext != nil {
+		return lr.ext
+	}
+	body := f.loops[lr.header].body
+	lr.ext = map[*ssa.BasicBlock]bool{}
+	for b := range body {
+		lr.ext[b] = true
+	}
+	for _, b := range f.fn.Blocks {
+		if body[b] {
+			continue
+		}
+		for d := range body {
+			if d != lr.header && d.Dominates(b) {
+				lr.ext[b] = true
+			}
+		}
+	}
+	return lr.ext
+}
+
+type loopBack struct {
+	cond *Term
+	st   *State
+	phis map[*ssa.Phi]Val
 }
 
 type edge struct {
@@ -278,17 +321,35 @@ func (f *Frame) run(st *State, reach *Term) (*State, *Term, []Val) {
 	}
 	rpo, isBack := f.analyzeLoops()
 	incoming := map[*ssa.BasicBlock][]edge{}
-	incoming[fn.Blocks[0]] = []edge{{from: nil, cond: reach, st: st}}
+	start := fn.Blocks[0]
+	var onlyIn map[*ssa.BasicBlock]bool
+	if f.loopRun != nil {
+		start = f.loopRun.header
+		onlyIn = f.loopRun.extended(f)
+	}
+	incoming[start] = []edge{{from: nil, cond: reach, st: st}}
 	var rets []retInfo
 	for _, b := range rpo {
+		if onlyIn != nil && !onlyIn[b] {
+			continue
+		}
 		edges := incoming[b]
 		if len(edges) == 0 {
 			continue // unreachable
 		}
 		delete(incoming, b)
-		cur, r := f.mergeEdges(b, edges)
-		if li := f.loops[b]; li != nil {
-			cur = f.enterLoop(li, cur, r, edges)
+		var cur *State
+		var r *Term
+		if f.loopRun != nil && b == f.loopRun.header {
+			cur, r = edges[0].st, edges[0].cond
+			for ph, v := range f.loopRun.phiIn {
+				f.vals[ph] = v
+			}
+		} else {
+			cur, r = f.mergeEdges(b, edges)
+			if li := f.loops[b]; li != nil {
+				cur = f.enterLoop(li, cur, r, edges)
+			}
 		}
 		// instructions
 		terminated := false
@@ -305,6 +366,19 @@ func (f *Frame) run(st *State, reach *Term) (*State, *Term, []Val) {
 				f.pushEdge(incoming, isBack, b, b.Succs[0], r, cur)
 				terminated = true
 			case *ssa.Return:
+				if f.loopRun != nil {
+					// leaving the loop by returning a non-nil error is order-insensitive as far as
+					// the generated files are concerned (there are none); anything else is an early exit
+					benign := False
+					if n := len(x.Results); n > 0 {
+						if ev, ok := f.get(x.Results[n-1]).(*Term); ok && ev.S == SAny && isErrorType(x.Results[n-1].Type()) {
+							benign = Neq(ev, Atom("anynil", SAny))
+						}
+					}
+					f.loopRun.exits = append(f.loopRun.exits, And(r, Not(benign)))
+					terminated = true
+					break
+				}
 				var vs []Val
 				for _, rv := range x.Results {
 					vs = append(vs, f.get(rv))
@@ -361,6 +435,28 @@ func (f *Frame) edgeCond(reach, c *Term) *Term {
 func (f *Frame) pushEdge(incoming map[*ssa.BasicBlock][]edge, isBack map[[2]int]bool, from, to *ssa.BasicBlock, cond *Term, st *State) {
 	if cond.Op == "false" {
 		return
+	}
+	if lr := f.loopRun; lr != nil {
+		if to == lr.header && isBack[[2]int{from.Index, to.Index}] {
+			phis := map[*ssa.Phi]Val{}
+			for _, in := range to.Instrs {
+				ph, ok := in.(*ssa.Phi)
+				if !ok {
+					break
+				}
+				for i, p := range to.Preds {
+					if p == from {
+						phis[ph] = f.get(ph.Edges[i])
+					}
+				}
+			}
+			lr.backs = append(lr.backs, loopBack{cond: cond, st: st, phis: phis})
+			return
+		}
+		if !lr.extended(f)[to] {
+			lr.exits = append(lr.exits, cond)
+			return
+		}
 	}
 	if isBack[[2]int{from.Index, to.Index}] {
 		f.backEdge(f.loops[to], from, cond, st)
@@ -1049,6 +1145,11 @@ func (f *Frame) convert(st *State, x *ssa.Convert) Val {
 	panic(unsupported(fmt.Sprintf("convert %s -> %s", from, to)))
 }
 
+func isErrorType(t types.Type) bool {
+	n, ok := types.Unalias(t).(*types.Named)
+	return ok && n.Obj().Pkg() == nil && n.Obj().Name() == "error"
+}
+
 func isIfaceT(t types.Type) bool {
 	if _, isTP := types.Unalias(t).(*types.TypeParam); isTP {
 		return false
@@ -1189,6 +1290,9 @@ func (f *Frame) lookup(st *State, r *Term, x *ssa.Lookup) Val {
 }
 
 func (f *Frame) next(st *State, r *Term, x *ssa.Next) Val {
+	if lr := f.loopRun; lr != nil && x.Iter == ssa.Value(lr.rg) {
+		return lr.next
+	}
 	it, ok := f.get(x.Iter).(RangeIterVal)
 	if !ok {
 		panic(unsupported("next on unknown iterator"))
